@@ -27,6 +27,10 @@ TrIds == 1..Hdr.ni
 TrSweep == Hdr.sweep
 Buckets == 0..Hdr.maxb
 
+\* a pre-manifest (legacy) bucket object has generation 0 in the code; 0 means "not in the manifest" here
+Leg == 1000000
+G(g) == IF g = 0 THEN Leg ELSE g
+
 VARIABLES l,
   obj,      \* durable bucket objects: function on a growing set of <<b, g>> -> [p : set of entries, d : [Ids -> len]]
   dMan,     \* durable manifest [Buckets -> generation, 0 = absent]
@@ -110,7 +114,7 @@ TrWrite ==
   /\ UNCHANGED <<bvars, dMan, cvis, cdt, writing, last>>
 
 ManOf(m) == [b \in Buckets |-> IF \E j \in 1..Len(m) : m[j][1] = b
-                               THEN m[CHOOSE j \in 1..Len(m) : m[j][1] = b][2] ELSE 0]
+                               THEN G(m[CHOOSE j \in 1..Len(m) : m[j][1] = b][2]) ELSE 0]
 
 \* THE commit point: what becomes loadable is exactly the in-memory state
 TrCommit ==
@@ -126,13 +130,13 @@ TrCommit ==
 TrFret ==
   /\ IsEv("fret") /\ writing # 0 /\ writing' = 0
   \* every object reported obsolete is unreferenced now
-  /\ \A j \in 1..Len(Ev.obsolete) : dMan[Ev.obsolete[j][1]] # Ev.obsolete[j][2]
+  /\ \A j \in 1..Len(Ev.obsolete) : dMan[Ev.obsolete[j][1]] # G(Ev.obsolete[j][2])
   /\ UNCHANGED <<bvars, obj, dMan, cvis, cdt, last>>
 
 TrDelete ==
   /\ IsEv("delete")
-  /\ dMan[Ev.b] # Ev.g
-  /\ obj' = [o \in DOMAIN obj \ {<<Ev.b, Ev.g>>} |-> obj[o]]
+  /\ dMan[Ev.b] # G(Ev.g)
+  /\ obj' = [o \in DOMAIN obj \ {<<Ev.b, G(Ev.g)>>} |-> obj[o]]
   /\ UNCHANGED <<bvars, dMan, cvis, cdt, writing, last>>
 
 TrFnoop == IsEv("fnoop") /\ writing = 0 /\ LoadedVisOf(obj, dMan) = VisNow /\ LoadedDt2(obj, dMan) = dt
@@ -158,11 +162,24 @@ TrCrash ==
   /\ writing' = 0
   /\ UNCHANGED <<obj, dMan, cvis, cdt, last>>
 
+\* restart from the same content laid out as a pre-manifest release left it
+TrLegacy ==
+  /\ IsEv("legacy") /\ writing = 0
+  /\ LET named == {b \in Buckets : dMan[b] # 0} IN
+     /\ obj' = [p \in {<<b, Leg>> : b \in named} |-> obj[<<p[1], dMan[p[1]]>>]]
+     /\ dMan' = [b \in Buckets |-> IF b \in named THEN Leg ELSE 0]
+  /\ post' = LoadedPostOf(obj, dMan) /\ dt' = LoadedDt2(obj, dMan) /\ stale' = {}
+  /\ cur' = [i \in Ids |-> IF dt'[i] # 0 THEN [t \in Tok |-> IF \E e \in post' : e[1] = t /\ e[2] = i
+                                                              THEN (CHOOSE e \in post' : e[1] = t /\ e[2] = i)[3] ELSE 0]
+                           ELSE NoText]
+  /\ ObsVis(Ev.vis) = [t \in Tok |-> Visible(t)'] /\ ObsDt(Ev.dt) = dt'
+  /\ UNCHANGED <<cvis, cdt, writing, last>>
+
 TraceInit ==
   /\ Init /\ l = 2 /\ obj = << >> /\ dMan = [b \in Buckets |-> 0]
   /\ cvis = [t \in Tok |-> {}] /\ cdt = [i \in Ids |-> 0] /\ writing = 0 /\ last = [q |-> <<>>]
 TraceNext == TrReset \/ TrOp \/ TrObs \/ TrSearch \/ TrSnap \/ TrWrite \/ TrCommit \/ TrFret \/ TrDelete \/ TrFnoop
-             \/ TrFfail \/ TrFend \/ TrLoad \/ TrCrash
+             \/ TrFfail \/ TrFend \/ TrLoad \/ TrCrash \/ TrLegacy
 TraceSpec == TraceInit /\ [][TraceNext]_tvars
 
 \* loading what any prefix of a flush left behind yields exactly the last committed snapshot
